@@ -283,8 +283,12 @@ pub fn h_grow_insert_t(n: usize, cap: usize, tab: [u8; 8], nd: bool, tfix: i8) {
 /// With solver-chosen tombstones/placement the evicted bucket may stay unusable, so that the
 /// insertion finds the table without growth left. The hashing budget (C20): without growth of the
 /// capacity at most 2 + 1 hashes, with growth additionally one per held entry.
-pub fn h_insert_evict_tomb(n: usize, cap: usize, tab: [u8; 8]) {
-    let (mut c, st, exp0) = build_shaped_t(n, cap, tab, 0, true, 0);
+/// `script`: the table's behaviour is scripted (concrete choices) - with solver-chosen
+/// choices the reallocation path does not fold (measured: > 20 min).
+pub fn h_insert_evict_tomb(n: usize, cap: usize, tab: [u8; 8], script: &[u8], expect_grow: bool) {
+    let (mut c, st, exp0) = build_shaped_t(n, cap, tab, 0, false, 0);
+    // scripted table behaviour from here on: [tombstone bit of the eviction, slot of the insertion, slots after a rebuild ...]
+    tm::script(script, true, true);
     // after touching key 0 the LRU entry is key 1; the new entry has exactly its size
     let lru = if n >= 2 { 1 } else { 0 };
     let cap0 = c.capacity();
@@ -295,8 +299,7 @@ pub fn h_insert_evict_tomb(n: usize, cap: usize, tab: [u8; 8]) {
     drop(r);
     vassert!([C03, C20], c.len() == len0 && !c.contains(&(lru as u8)), "the insertion did not evict exactly the LRU entry");
     let grew = c.capacity() > cap0;
-    vcover!(grew, "evicting insert: the table had to grow (tombstone / no growth left)");
-    vcover!(!grew, "evicting insert: no growth");
+    vcover!(grew == expect_grow, "evicting insert: the scripted scenario (growth / no growth) is the one reached");
     if grew {
         vassert!([C20], hashes <= 2 + 1 + len0, "a growing insertion computed more than 2 + evicted + held key hashes");
     } else {
@@ -461,6 +464,10 @@ pub fn h_clone(n: usize, cap: usize, tab: [u8; 8], op: u8, side: u8, nd: bool) {
 }
 /// `slack`: free bytes under the limit (0 = the cache is exactly full).
 pub fn h_clone_s(n: usize, cap: usize, tab: [u8; 8], op: u8, side: u8, nd: bool, slack: usize, tfix: i8) {
+    h_clone_sk(n, cap, tab, op, side, nd, slack, tfix, -1)
+}
+/// `kop >= 0`: concrete key for the follow-up operation.
+pub fn h_clone_sk(n: usize, cap: usize, tab: [u8; 8], op: u8, side: u8, nd: bool, slack: usize, tfix: i8, kop: i8) {
     let (c, st, exp) = build_shaped_t(n, cap, tab, slack, nd, tfix);
     let f0 = fp(&c, n + 1);
     let d = c.clone();
@@ -511,7 +518,7 @@ pub fn h_clone_s(n: usize, cap: usize, tab: [u8; 8], op: u8, side: u8, nd: bool,
     // independence: one operation on one side leaves the other side untouched
     let (mut x, y) = if side == 0 { (d, c) } else { (c, d) };
     let fy = fp(&y, n + 1);
-    let k = sym_key(n as u8 + 1);
+    let k = if kop >= 0 { kop as u8 } else { sym_key(n as u8 + 1) };
     match op {
         0 => {}
         1 => {
@@ -589,23 +596,24 @@ pub fn h_clone_s(n: usize, cap: usize, tab: [u8; 8], op: u8, side: u8, nd: bool,
 
 // `nd` = model nondeterminism (any bucket placement, tombstones) - costly, thorough tier.
 harnesses! {
-    reserve_n3_c3_t0 [6] => h_capacity_t(3, 3, tab_of(6), 0, false, 0); //@ q=C13,C04,C05,C06,C20 t=C07,C02 to=900
-    reserve_n3_c3_t1 [6] => h_capacity_t(3, 3, tab_of(6), 0, false, 1); //@ q=C13,C05 t=C07,C04,C06,C20,C02 to=900
+    reserve_n3_c3_t0 [6] => h_capacity_t(3, 3, tab_of(6), 0, false, 0); //@ q=C13,C20 t=C07,C02,C04,C05,C06 to=900
+    reserve_n3_c3_t1 [6] => h_capacity_t(3, 3, tab_of(6), 0, false, 1); //@ q=C13 t=C07,C04,C05,C06,C20,C02 to=900
     reserve_n3_c3_sym [6] => h_capacity(3, 3, tab_of(6), 0, false); //@ t=C13,C07 to=1200
     reserve_n0_c0 [4] => h_capacity(0, 0, tab_of(6), 0, false); //@ q=C13 t=C07 to=600
-    reserve_n2_c3_collide_t0 [5] => h_capacity_t(2, 3, tab_of(0), 0, false, 0); //@ q=C13,C04 t=C07 to=900
+    reserve_n2_c3_collide_t0 [5] => h_capacity_t(2, 3, tab_of(0), 0, false, 0); //@ q=C13 t=C04,C07 to=900
     reserve_n3_c3_nd [6] => h_capacity(3, 3, tab_of(6), 0, true); //@ t=C13,C07 to=2400
-    try_reserve_n3_c3_t0 [6] => h_capacity_t(3, 3, tab_of(6), 1, false, 0); //@ q=C13,C04,C06 t=C07,C05,C20 to=900
+    try_reserve_n3_c3_t0 [6] => h_capacity_t(3, 3, tab_of(6), 1, false, 0); //@ q=C13 t=C07,C04,C05,C06,C20 to=900
     try_reserve_n3_c3_t2 [6] => h_capacity_t(3, 3, tab_of(6), 1, false, 2); //@ q=C13 t=C07,C04,C05,C06,C20 to=900
     try_reserve_n3_c3_sym [6] => h_capacity(3, 3, tab_of(6), 1, false); //@ t=C13 to=1200
     try_reserve_n2_c3_t0 [5] => h_capacity_t(2, 3, tab_of(6), 1, false, 0); //@ q=C13 t=C07,C06 to=900
     reserve_n3_c3_t0_a4 [6] => h_capacity_ta(3, 3, tab_of(6), 0, false, 0, 4, 0); //@ q=C07,C06,C04,C05 to=900
+    reserve_n2_c3_collide_t0_a3 [5] => h_capacity_ta(2, 3, tab_of(0), 0, false, 0, 3, 0); //@ q=C04 to=900
     reserve_n3_c3_t1_a1 [6] => h_capacity_ta(3, 3, tab_of(6), 0, false, 1, 1, 0); //@ q=C07 to=900
     try_reserve_n3_c3_t1_fail [6] => h_capacity_ta(3, 3, tab_of(6), 1, false, 1, 4, 1); //@ q=C07,C06,C04,C13 to=900
     try_reserve_n3_c3_t0_ok [6] => h_capacity_ta(3, 3, tab_of(6), 1, false, 0, 2, 0); //@ q=C07 to=900
     shrink_to_n2_c7_t1_a3 [5] => h_capacity_ta(2, 7, tab_of(6), 2, false, 1, 3, 0); //@ q=C07,C06 to=900
     try_reserve_n0_c3 [4] => h_capacity(0, 3, tab_of(6), 1, false); //@ q=C13 t=C07 to=600
-    try_reserve_n0_c7_fail [4] => h_capacity_ta(0, 7, tab_of(6), 1, false, -1, 1 << 61, 1); //@ q=C13 to=600
+    try_reserve_n0_c3_fail [4] => h_capacity_ta(0, 3, tab_of(6), 1, false, -1, 5, 1); //@ q=C13 to=600
     try_reserve_n0_c0 [4] => h_capacity(0, 0, tab_of(6), 1, false); //@ q=C13 to=600
     shrink_to_n2_c7_t0 [5] => h_capacity_t(2, 7, tab_of(6), 2, false, 0); //@ q=C13 t=C07,C04,C05,C06,C20 to=900
     shrink_to_n2_c7_t1 [5] => h_capacity_t(2, 7, tab_of(6), 2, false, 1); //@ q=C13 t=C07,C04,C05,C06,C20 to=900
@@ -623,19 +631,29 @@ harnesses! {
     grow_insert_n0_c0 [4] => h_grow_insert(0, 0, tab_of(6), false); //@ q=C13,C07,C20 to=600
     grow_insert_n3_c3_collide_t1 [6] => h_grow_insert_t(3, 3, tab_of(0), false, 1); //@ q=C04 t=C13,C07 to=1200
     grow_insert_n3_c3_nd [6] => h_grow_insert(3, 3, tab_of(6), true); //@ t=C13,C07 to=2400
-    insert_evict_tomb_n3_c3 [6] => h_insert_evict_tomb(3, 3, tab_of(6)); //@ q=C20 t=C03,C04 to=1200
+    insert_evict_tomb_n3_c3 [6] => h_insert_evict_tomb(3, 3, tab_of(6), &[1, 3, 0, 1, 2], true); //@ q=C20 t=C03,C04 to=900
+    insert_evict_notomb_n3_c3 [6] => h_insert_evict_tomb(3, 3, tab_of(6), &[0, 1], false); //@ q=C20 to=900
+    insert_evict_reuse_tomb_n3_c3 [6] => h_insert_evict_tomb(3, 3, tab_of(6), &[1, 1], false); //@ q=C20 to=900
     with_capacity_n3 [5] => h_with_capacity(3, tab_of(6), false); //@ q=C13 to=900
     with_capacity_n4 [6] => h_with_capacity(4, tab_of(6), false); //@ t=C13 to=1200
-    clone_n3_c3 [6] => h_clone(3, 3, tab_of(6), 0, 0, false); //@ q=C14,C19,C06,C20,C05 t=C07,C13 to=900
-    clone_n3_drop_src [6] => h_clone(3, 3, tab_of(6), 7, 1, false); //@ q=C14,C07,C06 to=900
+    clone_n3_c3 [6] => h_clone(3, 3, tab_of(6), 0, 0, false); //@ q=C19,C06,C20,C05 t=C14,C07,C13 to=2400
+    clone_n3_c3_t0 [6] => h_clone_sk(3, 3, tab_of(6), 0, 0, false, ES0 + (1 << 20), 0, -1); //@ q=C14 to=900
+    clone_n3_c3_t1 [6] => h_clone_sk(3, 3, tab_of(6), 0, 0, false, ES0 + (1 << 20), 1, -1); //@ q=C14 to=900
+    clone_n3_drop_src [6] => h_clone(3, 3, tab_of(6), 7, 1, false); //@ q=C07,C06 t=C14 to=2400
+    clone_n3_drop_src_t2 [6] => h_clone_sk(3, 3, tab_of(6), 7, 1, false, ES0 + (1 << 20), 2, -1); //@ q=C14 to=900
     clone_n2_insert_clone [5] => h_clone(2, 3, tab_of(6), 1, 0, false); //@ t=C14,C06,C07 to=2400
-    clone_n2_remove_src [5] => h_clone(2, 3, tab_of(6), 2, 1, false); //@ q=C14 t=C06,C07 to=1200
-    clone_n2_get_clone [5] => h_clone(2, 3, tab_of(6), 3, 0, false); //@ q=C14 to=900
+    clone_n2_remove_src [5] => h_clone(2, 3, tab_of(6), 2, 1, false); //@ t=C14,C06,C07 to=2400
+    clone_n2_get_clone [5] => h_clone(2, 3, tab_of(6), 3, 0, false); //@ t=C14 to=2400
+    clone_n2_get_clone_mru [5] => h_clone_sk(2, 3, tab_of(6), 3, 0, false, 64, 0, 0); //@ q=C14 to=900
+    clone_n2_get_clone_lru [5] => h_clone_sk(2, 3, tab_of(6), 3, 0, false, 64, 0, 1); //@ q=C14 to=900
+    clone_n2_remove_mru_clone [5] => h_clone_sk(2, 3, tab_of(6), 2, 0, false, 64, 0, 0); //@ q=C14 to=900
+    clone_n2_remove_src_k1 [5] => h_clone_sk(2, 3, tab_of(6), 2, 1, false, 64, 0, 1); //@ q=C14,C06,C07 to=900
     clone_n2_setmax_src [5] => h_clone(2, 3, tab_of(6), 4, 1, false); //@ t=C14 to=1200
     clone_n2_clear_clone [5] => h_clone(2, 3, tab_of(6), 5, 0, false); //@ t=C14,C06 to=1200
     clone_n2_mutate_clone [5] => h_clone(2, 3, tab_of(6), 6, 0, false); //@ t=C14 to=1200
     clone_n3_c3_nd [6] => h_clone(3, 3, tab_of(6), 0, 0, true); //@ t=C14 to=2400
-    clone_n3_c3_exactly_full [6] => h_clone_s(3, 3, tab_of(6), 0, 0, false, 0, -1); //@ q=C14,C19,C01 to=900
+    clone_n3_c3_exactly_full [6] => h_clone_s(3, 3, tab_of(6), 0, 0, false, 0, -1); //@ q=C19,C01 t=C14 to=2400
+    clone_n3_c3_exactly_full_t1 [6] => h_clone_s(3, 3, tab_of(6), 0, 0, false, 0, 1); //@ q=C14 to=900
     clone_n2_c7_spare [5] => h_clone_s(2, 7, tab_of(6), 0, 0, false, 64, 0); //@ q=C14,C13 to=900
     clone_n7_c7_t3 [10] => h_clone_s(7, 7, tab_of(6), 0, 0, false, 64, 3); //@ q=C20 t=C14,C19 to=1500
     clone_n0_small_limit [4] => h_clone_s(0, 0, tab_of(6), 0, 0, false, 5, -1); //@ q=C14 to=600
